@@ -462,6 +462,7 @@ class RecipeReplay:
         has_remove = any(st["call"] == "remove" for st in ev["prog"])
         partial_remove = any(st["call"] == "remove" and self.partial(st, snaps[i]) for i, st in enumerate(ev["prog"]))
         qkey = dict(key, stages=len(tfs) - 1)
+        removed_from = {st["n"] for st in ev["prog"] if st["call"] == "remove"}
         # ---- C09 get_substance_used ---------------------------------------------------------------------------
         for t, tf in enumerate(tfs):
             for j, dset in enumerate(self.dsets):
@@ -538,12 +539,19 @@ class RecipeReplay:
                         gout = list(np.asarray(fl["out"], dtype=float).flatten())
                     except Exception as ex:
                         self.report("C15", "container_flows_raises", dict(k15, exc=type(ex).__name__), f"get_container_flows({name}, {tf!r}, {unit!r}) raised {type(ex).__name__}: {ex}", ev)
+                        if name in removed_from:
+                            self.ran("C17")
+                            self.report("C17", "discarded_not_reported", dict(k15, exc=type(ex).__name__), f"usage tracking of {name}, which a remove step emptied: get_container_flows({name}, {tf!r}, {unit!r}) raised {type(ex).__name__}: {ex}", ev)
                         continue
                     tol = 0.5 * 10 ** (-p) * 1.0001
                     for lab, g, e in (("in", gin, exp["in"]), ("out", gout, exp["out"])):
                         if len(g) != len(e) or any(abs(a - b) > tol + 1e-6 * abs(b) + 1e-9 for a, b in zip(g, e)):
                             self.report("C15", "container_flows", dict(k15, side=lab, same_plate=self.same_plate(ev), remove=has_remove),
                                         f"get_container_flows({name}, {tf!r}, {unit!r})[{lab!r}] = {g}, specified {e}", ev)
+                            if lab == "out" and name in removed_from:
+                                # C17: what a remove step took out is what usage tracking reports as discarded
+                                self.ran("C17")
+                                self.report("C17", "discarded_not_reported", k15, f"{name} was the target of a remove step: get_container_flows({name}, {tf!r}, {unit!r})['out'] = {g}, specified {e}", ev)
                             break
                     else:
                         if any(x < -tol for x in gin + gout):
